@@ -31,7 +31,7 @@ INIT Init
 NEXT Next
 CHECK_DEADLOCK FALSE
 """ + "".join(f"INVARIANT {i}\n" for i in invariants) + ("INVARIANT Emit\n" if emit else "")
-    return core.run_tlc(mod, cfg, workers=workers, extra_files=[(mod + ".tla", text)], timeout=3400, heap="8g")
+    return core.run_tlc(mod, cfg, workers=workers, extra_files=[(mod + ".tla", text)], timeout=3400, heap="8g", coverage=True)
 
 
 def belongs(pid, clause):
